@@ -167,27 +167,43 @@ structure Change where
   names3 : T3 (Option Nat)
   executable3 : T3 (Option Bool)
   copied : Bool
+  /-- only read for a copy: what THIS has, versioned, at the copy's OWN path `paths3[1]`
+  (`contents_pair`, dirname, basename, `_safe_executable`); `none`: not versioned there -/
+  thisAtCopy : Option ((Kind × Nat) × Option Id × Nat × Bool) := none
   deriving DecidableEq, Repr
 
 /-- what `_entries3` yields for the entries `b` (BASE), `o` (OTHER), `t` (THIS) of one file -/
-def Change.ofEntries (b o t : Option Entry) (copied : Bool) : Change where
+def Change.ofEntries (b o t : Option Entry) (copied : Bool) (tc : Option Entry := none) : Change where
   changed := decide (pairOf o ≠ pairOf b)
   pairs3 := ⟨pairOf b, pairOf o, pairOf t⟩
   parents3 := ⟨b.map (·.parent), o.map (·.parent), t.map (·.parent)⟩
   names3 := ⟨b.map (·.name), o.map (·.name), t.map (·.name)⟩
   executable3 := ⟨b.map (·.exec), o.map (·.exec), t.map (·.exec)⟩
   copied := copied
+  thisAtCopy := tc.map fun e => ((e.kind, e.content), e.parent, e.name, e.exec)
 
-/-- the `if copied:` block of `_compute_transform`: "treat copies as simple adds":
-every triple becomes `(None, x[1], None)` -/
+/-- the `if copied:` block of `_compute_transform`: "treat copies as simple adds".
+The BASE and THIS slots the generator filled in describe the copy SOURCE and are
+dropped; the THIS slot becomes the entry THIS already has at the copy's own path
+(`this_path = paths3[1] if this_tree.is_versioned(paths3[1]) else None`), so an
+existing file there is merged with OTHER's rather than overwritten -/
 def normCopy (c : Change) : Change :=
   if c.copied then
-    { changed := true
-      pairs3 := ⟨none, c.pairs3.other, none⟩
-      parents3 := ⟨none, c.parents3.other, none⟩
-      names3 := ⟨none, c.names3.other, none⟩
-      executable3 := ⟨none, c.executable3.other, none⟩
-      copied := false }
+    match c.thisAtCopy with
+    | none =>
+      { changed := true
+        pairs3 := ⟨none, c.pairs3.other, none⟩
+        parents3 := ⟨none, c.parents3.other, none⟩
+        names3 := ⟨none, c.names3.other, none⟩
+        executable3 := ⟨none, c.executable3.other, none⟩
+        copied := false }
+    | some (pr, par, nm, ex) =>
+      { changed := true
+        pairs3 := ⟨none, c.pairs3.other, some pr⟩
+        parents3 := ⟨none, c.parents3.other, some par⟩
+        names3 := ⟨none, c.names3.other, some nm⟩
+        executable3 := ⟨none, c.executable3.other, some ex⟩
+        copied := false }
   else c
 
 /-- `_merge_names` on triples, after `name_winner = resolver(*names)`, `parent_id_winner = resolver(*parents)` -/
@@ -280,11 +296,12 @@ def look (t : Tree) : Option Id → Option Entry
 
 /-- the loop body on the entries found at the three paths -/
 def PChange.result (base this other : Tree) (c : PChange) : Result :=
-  mergeChange (Change.ofEntries (look base c.src) (look other c.dst) (look this c.cur) c.copied)
+  mergeChange (Change.ofEntries (look base c.src) (look other c.dst) (look this c.cur) c.copied (look this c.dst))
 
-/-- the path the element's trans_id leaves: THIS's path, unless the element is a copy (its triples are
-rewritten to `(None, other, None)`: a new trans_id) -/
-def PChange.removes (c : PChange) : Option Id := if c.copied then none else c.cur
+/-- the path the element's trans_id leaves: THIS's path; for a copy the copy's own path when THIS has a
+versioned entry there (else the triples are `(None, other, None)`: a new trans_id, nothing is left) -/
+def PChange.removes (this : Tree) (c : PChange) : Option Id :=
+  if c.copied then (if (look this c.dst).isSome then c.dst else none) else c.cur
 
 /-- the entries the transform puts in place, each at the path `key parent name` -/
 def placements (key : Option Id → Nat → Id) (base this other : Tree) (cs : List PChange) : List (Id × Entry) :=
@@ -294,7 +311,7 @@ def placements (key : Option Id → Nat → Id) (base this other : Tree) (cs : L
 def applyChanges (key : Option Id → Nat → Id) (base this other : Tree) (cs : List PChange) : Tree := fun i =>
   match (placements key base this other cs).find? (fun pe => pe.1 == i) with
   | some pe => some pe.2
-  | none => if cs.any (fun c => c.removes == some i) then none else this i
+  | none => if cs.any (fun c => c.removes this == some i) then none else this i
 
 /-! ### finite trees for the driver and for the well-formedness hypothesis -/
 
